@@ -1,0 +1,23 @@
+//go:build verif && amd64
+// +build verif,amd64
+
+package api
+
+import (
+	"github.com/bytedance/sonic/internal/decoder/jitdec"
+	"github.com/bytedance/sonic/internal/decoder/optdec"
+)
+
+// VerifSetImpl selects the decoder implementation at run time
+// (the same assignment init() makes from SONIC_USE_OPTDEC).
+func VerifSetImpl(opt bool) {
+	if opt {
+		pretouchImpl = optdec.Pretouch
+		pretouchManyImpl = optdec.PretouchMany
+		decodeImpl = optdec.Decode
+	} else {
+		pretouchImpl = jitdec.Pretouch
+		pretouchManyImpl = jitdec.PretouchMany
+		decodeImpl = jitdec.Decode
+	}
+}
